@@ -483,9 +483,10 @@ func replayInFreshProcess(path string) (*replayOut, error) {
 	var stdout, stderr bytes.Buffer
 	cmd.Stdout, cmd.Stderr = &stdout, &stderr
 	cmd.Env = append(os.Environ(), "GOMAXPROCS=1")
-	_ = cmd.Run()
+	runErr := cmd.Run()
 	var out replayOut
 	if err := json.Unmarshal(stdout.Bytes(), &out); err != nil {
+		err = fmt.Errorf("%v (process: %v, %d bytes of output)", err, runErr, stdout.Len())
 		se := stderr.String()
 		if strings.Contains(se, "fatal error:") || strings.Contains(se, "[signal SIG") {
 			// the code under test took the whole process down
